@@ -30,7 +30,7 @@ func newRunner(r *vh.Rand) vh.Runner {
 		h:     ackhandler.NewReceivedPacketHandler(utils.DefaultLogger),
 		now:   1 + r.Range(0, 1_000_000_000),
 		maxApp: -1,
-		style: r.Pick(50, 20, 15, 15), // mostly in order / heavy reorder / many gaps (beyond the range cap) / tiny universe
+		style: r.Pick(45, 18, 12, 13, 12), // mostly in order / heavy reorder / many gaps / tiny universe / at the range cap
 	}
 }
 
@@ -64,6 +64,40 @@ func (rn *runner) pickLevel(r *vh.Rand) string {
 
 func (rn *runner) GenOp(r *vh.Rand, i int) string {
 	rn.now += r.Range(0, 30_000_000) // 0..30ms, straddles max_ack_delay
+	if rn.style == 4 && i == 0 {
+		// start right at the range cap: 60..68 isolated ranges in the app-data space
+		cnt := r.Range(60, 68)
+		step := r.Range(2, 3)
+		rn.next[2] = cnt * step
+		rn.maxApp = (cnt - 1) * step
+		for j := int64(0); j < cnt; j++ {
+			rn.seen[2] = append(rn.seen[2], j*step)
+		}
+		return fmt.Sprintf("fill A %d 0 %d %d", cnt, step, rn.now)
+	}
+	if rn.style == 4 && r.Chance(45) {
+		// near the cap: extend / merge / fill a hole / replay the lowest numbers
+		var pn int64
+		switch r.Pick(30, 25, 25, 20) {
+		case 0:
+			pn = rn.next[2]
+			rn.next[2]++
+		case 1:
+			pn = r.Range(0, rn.next[2])
+		case 2:
+			pn = r.Range(0, 8)
+		default:
+			pn = rn.seen[2][r.Intn(len(rn.seen[2]))] + 1
+		}
+		if pn > rn.maxApp {
+			rn.maxApp = pn
+		}
+		rn.seen[2] = append(rn.seen[2], pn)
+		if r.Chance(35) {
+			return fmt.Sprintf("dup A %d", pn)
+		}
+		return fmt.Sprintf("recv A %d 1 %d %d", pn, r.Intn(2), rn.now)
+	}
 	switch r.Pick(60, 12, 16, 6, 2, 4) {
 	case 0: // recv
 		l := rn.pickLevel(r)
@@ -75,7 +109,7 @@ func (rn *runner) GenOp(r *vh.Rand, i int) string {
 		case len(rn.seen[sp]) > 0 && r.Chance(12): // duplicate
 			pn = rn.seen[sp][r.Intn(len(rn.seen[sp]))]
 		default:
-			gapP := []int{15, 45, 90, 30}[rn.style]
+			gapP := []int{15, 45, 90, 30, 60}[rn.style]
 			if r.Chance(gapP) {
 				rn.next[sp] += r.Range(1, 4)
 			}
@@ -164,6 +198,14 @@ func (rn *runner) Exec(op string) string {
 		default:
 			res = "E:other"
 		}
+	case "fill":
+		res = "ok"
+		cnt, start, step := vh.Atoi64(f[2]), vh.Atoi64(f[3]), vh.Atoi64(f[4])
+		for j := int64(0); j < cnt; j++ {
+			if err := rn.h.ReceivedPacket(protocol.PacketNumber(start+j*step), protocol.ECNNon, lvlOf(f[1]), monotime.Time(vh.Atoi64(f[5])), false); err != nil {
+				res = "E:bug"
+			}
+		}
 	case "dup":
 		if rn.h.IsPotentiallyDuplicate(protocol.PacketNumber(vh.Atoi64(f[2])), lvlOf(f[1])) {
 			res = "1"
@@ -182,4 +224,37 @@ func (rn *runner) Exec(op string) string {
 	return res + rn.suffix()
 }
 
-func TestDriver(t *testing.T) { vh.Main(t, "rcv", newRunner) }
+// enumAll: every arrival sequence of length <= 5 over a 6-number universe, with every
+// ack-eliciting mask, each followed by duplicate queries for the whole universe and an ACK.
+func enumAll(emit func(ops []string)) {
+	const U, L = 6, 5
+	var seq [L]int
+	var rec func(n, length int)
+	rec = func(n, length int) {
+		if n == length {
+			for mask := 0; mask < 1<<length; mask++ {
+				ops := make([]string, 0, length+U+2)
+				now := int64(1000)
+				for i := 0; i < length; i++ {
+					now += 1_000_000
+					ops = append(ops, fmt.Sprintf("recv A %d 1 %d %d", seq[i], (mask>>i)&1, now))
+				}
+				for p := 0; p < U; p++ {
+					ops = append(ops, fmt.Sprintf("dup A %d", p))
+				}
+				ops = append(ops, fmt.Sprintf("ack A %d 1", now+1), fmt.Sprintf("ack A %d 0", now+30_000_000))
+				emit(ops)
+			}
+			return
+		}
+		for v := 0; v < U; v++ {
+			seq[n] = v
+			rec(n+1, length)
+		}
+	}
+	for length := 1; length <= L; length++ {
+		rec(0, length)
+	}
+}
+
+func TestDriver(t *testing.T) { vh.MainEnum(t, "rcv", newRunner, enumAll) }
